@@ -72,7 +72,9 @@ class RandomTable(Table):
         seed = self.seed
 
         # N.B., we want this to be stable, i.e., same data each time
-        pyrandom.seed(seed)
+        # (use a private generator, so that concurrent iterators do not
+        # disturb each other or the global random state)
+        rnd = pyrandom.Random(seed)
 
         # construct fields
         flds = ["f%s" % n for n in range(nf)]
@@ -83,7 +85,7 @@ class RandomTable(Table):
             # artificial delay
             if self.wait:
                 time.sleep(self.wait)
-            yield tuple(pyrandom.random() for n in range(nf))
+            yield tuple(rnd.random() for n in range(nf))
 
     def reseed(self):
         self.seed = randomseed()
